@@ -8,17 +8,17 @@ import (
 	"verifharness/kit"
 )
 
-const rule = "planted-solution inputs inside the stated conditioning bounds: matrices Q1*diag(s)*Q2^T with |s| in [0.3,3] (Givens-angle factors, exact/near ties of s as classes), sparse SPD B^T B + I (n 1-60), polynomials from separated real roots in [-4,4] and irreducible quadratics (degree 1-8), bumpy recorded objectives, angles within +-100*pi, Bezier control polygons of degree 1-16, polylines with segment lengths >= 0.05, joined Bezier pieces. Non-trivial: the case selects a specialised path (matrix not axis-aligned, RCM permutation != identity, degree >= 4 polynomial or Bezier / the cubic length quadrature, refined search with an oscillating objective, negative angle, non-first polyline segment or joined piece, t outside [0,1]). Distinct: hash of the JSON case."
+const rule = "planted-solution inputs inside the stated conditioning bounds: matrices Q1*diag(s)*Q2^T with |s| in [0.3,3] (Givens-angle factors on a 2*pi/2^20 grid incl. exact quarter turns, structured or uniform; exact/near ties and band-separated s as classes), sparse SPD B^T B + I (n 1-60), polynomials from separated real roots in [-4,4] and irreducible quadratics (degree 1-8), bumpy recorded objectives, angles within +-100*pi, Bezier control polygons of degree 1-16, polylines with segment lengths >= 0.05, joined Bezier pieces. Floats are uniform (bit-mixed rapid draws) 4 times in 5 and rapid-biased (tiny/simple values) otherwise. Non-trivial: the case selects a specialised path (matrix not axis-aligned, RCM permutation != identity, degree >= 4 polynomial or Bezier / the cubic length quadrature, refined search with an oscillating objective, negative angle, non-first polyline segment or joined piece, t outside [0,1]). Distinct: hash of the JSON case."
 
 func TestProp(t *testing.T) {
 	runtime.GOMAXPROCS(2)
 	defer calibReport()
 	both := []string{"numerical", "model"}
 	kit.Run(t, "C17", rule,
-		kit.Clause[matCase]{Name: "C17/matrix/inverse", Quick: 15000, Thorough: 480000, Gen: func(t *rapid.T) matCase {
+		kit.Clause[matCase]{Name: "C17/matrix/inverse", Quick: 30000, Thorough: 480000, Gen: func(t *rapid.T) matCase {
 			return genMatCase(t, []int{2, 3}, both, true)
 		}, Check: checkInverse},
-		kit.Clause[matCase]{Name: "C17/matrix/svd", Quick: 20000, Thorough: 600000, Gen: func(t *rapid.T) matCase {
+		kit.Clause[matCase]{Name: "C17/matrix/svd", Quick: 40000, Thorough: 600000, Gen: func(t *rapid.T) matCase {
 			// with a Matrix4.SVD finding active, re-draw (a bounded number of times, each counted) so that
 			// the 4x4 share of the clause keeps exploring the part of the domain outside the known classes
 			sizes := []int{2, 3, 3, 4, 4, 4}
@@ -39,33 +39,33 @@ func TestProp(t *testing.T) {
 				return c
 			}
 		}, Check: checkSVD},
-		kit.Clause[matCase]{Name: "C17/matrix/eigenvalues", Quick: 15000, Thorough: 480000, Gen: func(t *rapid.T) matCase {
+		kit.Clause[matCase]{Name: "C17/matrix/eigenvalues", Quick: 30000, Thorough: 480000, Gen: func(t *rapid.T) matCase {
 			return genMatCase(t, []int{2, 3, 3}, both, true)
 		}, Check: checkEigen},
-		kit.Clause[matCase]{Name: "C17/matrix/charpoly", Quick: 7500, Thorough: 200000, Gen: func(t *rapid.T) matCase {
+		kit.Clause[matCase]{Name: "C17/matrix/charpoly", Quick: 15000, Thorough: 200000, Gen: func(t *rapid.T) matCase {
 			return genMatCase(t, []int{4}, []string{"numerical"}, true)
 		}, Check: checkCharPoly},
-		kit.Clause[rotCase]{Name: "C17/matrix/rotation", Quick: 10000, Thorough: 240000, Gen: genRot, Check: checkRotation},
-		kit.Clause[basisCase]{Name: "C17/vec/orthobasis", Quick: 15000, Thorough: 400000, Gen: genBasis, Check: checkBasis},
-		kit.Clause[lsqCase]{Name: "C17/lsq/normal-equations", Quick: 15000, Thorough: 400000, Gen: genLsq, Check: checkLsq},
-		kit.Clause[sparseCase]{Name: "C17/sparse/cholesky", Quick: 6000, Thorough: 160000, Gen: func(t *rapid.T) sparseCase { return genSparse(t, 60) }, Check: checkSparse},
-		kit.Clause[cgCase]{Name: "C17/sparse/bicgstab", Quick: 4000, Thorough: 100000, Gen: genCG, Check: checkCG, Budget: 30e9},
-		kit.Clause[polyCase]{Name: "C17/poly/real-roots", Quick: 30000, Thorough: 1000000, Gen: genPoly, Check: checkPoly, Budget: 30e9},
-		kit.Clause[optCase]{Name: "C17/opt/gss", Quick: 10000, Thorough: 240000, Gen: func(t *rapid.T) optCase {
+		kit.Clause[rotCase]{Name: "C17/matrix/rotation", Quick: 20000, Thorough: 240000, Gen: genRot, Check: checkRotation},
+		kit.Clause[basisCase]{Name: "C17/vec/orthobasis", Quick: 30000, Thorough: 400000, Gen: genBasis, Check: checkBasis},
+		kit.Clause[lsqCase]{Name: "C17/lsq/normal-equations", Quick: 30000, Thorough: 400000, Gen: genLsq, Check: checkLsq},
+		kit.Clause[sparseCase]{Name: "C17/sparse/cholesky", Quick: 12000, Thorough: 160000, Gen: func(t *rapid.T) sparseCase { return genSparse(t, 60) }, Check: checkSparse},
+		kit.Clause[cgCase]{Name: "C17/sparse/bicgstab", Quick: 8000, Thorough: 100000, Gen: genCG, Check: checkCG, Budget: 30e9},
+		kit.Clause[polyCase]{Name: "C17/poly/real-roots", Quick: 60000, Thorough: 1000000, Gen: genPoly, Check: checkPoly, Budget: 30e9},
+		kit.Clause[optCase]{Name: "C17/opt/gss", Quick: 20000, Thorough: 240000, Gen: func(t *rapid.T) optCase {
 			return genOpt(t, []string{"gss", "gss-unimodal"})
 		}, Check: checkOpt},
-		kit.Clause[optCase]{Name: "C17/opt/line-search", Quick: 15000, Thorough: 320000, Gen: func(t *rapid.T) optCase {
+		kit.Clause[optCase]{Name: "C17/opt/line-search", Quick: 30000, Thorough: 320000, Gen: func(t *rapid.T) optCase {
 			return genOpt(t, []string{"line", "line", "recursive2", "recursive3", "recursive4"})
 		}, Check: checkOpt},
-		kit.Clause[optCase]{Name: "C17/opt/grid-search", Quick: 10000, Thorough: 240000, Gen: func(t *rapid.T) optCase {
+		kit.Clause[optCase]{Name: "C17/opt/grid-search", Quick: 20000, Thorough: 240000, Gen: func(t *rapid.T) optCase {
 			return genOpt(t, []string{"grid2", "grid3"})
 		}, Check: checkOpt},
-		kit.Clause[angleCase]{Name: "C17/angle/canonical", Quick: 25000, Thorough: 800000, Gen: genAngle, Check: checkCanonical},
-		kit.Clause[angleCase]{Name: "C17/angle/dist", Quick: 25000, Thorough: 800000, Gen: genAngle, Check: checkAngleDist},
-		kit.Clause[bezCase]{Name: "C17/bezier/eval-split-polynomials", Quick: 15000, Thorough: 400000, Gen: genBez, Check: checkBezier},
-		kit.Clause[monoCase]{Name: "C17/bezier/inverse-x", Quick: 7500, Thorough: 200000, Gen: genMono, Check: checkMono},
-		kit.Clause[lenCase]{Name: "C17/bezier/length", Quick: 1500, Thorough: 32000, Gen: genLen, Check: checkLength},
-		kit.Clause[segCase]{Name: "C17/curve/segment-curve", Quick: 15000, Thorough: 400000, Gen: genSeg, Check: checkSegCurve},
-		kit.Clause[joinCase]{Name: "C17/curve/joined-curve", Quick: 15000, Thorough: 400000, Gen: genJoin, Check: checkJoined},
+		kit.Clause[angleCase]{Name: "C17/angle/canonical", Quick: 50000, Thorough: 800000, Gen: genAngle, Check: checkCanonical},
+		kit.Clause[angleCase]{Name: "C17/angle/dist", Quick: 50000, Thorough: 800000, Gen: genAngle, Check: checkAngleDist},
+		kit.Clause[bezCase]{Name: "C17/bezier/eval-split-polynomials", Quick: 30000, Thorough: 400000, Gen: genBez, Check: checkBezier},
+		kit.Clause[monoCase]{Name: "C17/bezier/inverse-x", Quick: 15000, Thorough: 200000, Gen: genMono, Check: checkMono},
+		kit.Clause[lenCase]{Name: "C17/bezier/length", Quick: 3000, Thorough: 32000, Gen: genLen, Check: checkLength},
+		kit.Clause[segCase]{Name: "C17/curve/segment-curve", Quick: 30000, Thorough: 400000, Gen: genSeg, Check: checkSegCurve},
+		kit.Clause[joinCase]{Name: "C17/curve/joined-curve", Quick: 30000, Thorough: 400000, Gen: genJoin, Check: checkJoined},
 	)
 }
